@@ -19,15 +19,16 @@ variable (eb : DEnvB r) (rs : DRestruct r)
 /-- what the full theorem assumes ALONG THE PATH of the key (no "neither full nor underflowing" clause): digests /
     lengths / new child sizes in machine range, header list = headers of the embedded children, every child satisfies the
     provider's invariant `Q`, the data slab's elements satisfy `P`, belong to the owner address, and it is not inlined -/
-def mds_PathG (cfg : MCfg) (k : MKey) (v : Elem) (P : DG r → Prop) (Qin : (d : Nat) → MTree r d → Prop) :
+def mds_PathG (cfg : MCfg) (k : MKey) (v : Elem) (P : DG r → Prop) (L : MDataSlab r → Prop)
+    (Qin : (d : Nat) → MTree r d → Prop) :
     (d : Nat) → MTree r d → Ctx → Prop
-  | 0, (sl : MDataSlab r), _ => P sl.elems ∧ sl.hdr.id.addr = cfg.addr ∧ sl.inlined = false
+  | 0, (sl : MDataSlab r), _ => P sl.elems ∧ sl.hdr.id.addr = cfg.addr ∧ sl.inlined = false ∧ L sl
   | d + 1, (m : MMetaSlab (MTree r d)), c =>
     (∀ h ∈ m.childHdrs, h.firstKey < 2^64) ∧ m.childHdrs.length < 2^62 ∧
     m.childHdrs = m.children.map (MTree.hdr d) ∧ (∀ c' ∈ m.children, Qin d c') ∧
     ∃ child : MTree r d, m.children[mds_idx m.childHdrs (k.dig 0)]? = some child ∧
       mds_rootFlag d child = false ∧
-      mds_PathG cfg k v P Qin d child c ∧
+      mds_PathG cfg k v P L Qin d child c ∧
       ∀ ks old child' c1, MTree.set cfg d child k v c = .ok (ks, old, child', c1) → (MTree.hdr d child').size < 2^32
 
 /-- one level: from the relation on the child to the relation on the index slab, all three tails -/
@@ -155,16 +156,16 @@ theorem mds_set_meta_full' (cfg : MCfg) (k : MKey) (v : Elem) (Q Qin : (d : Nat)
     (`mds_Post`, which gives `MHeapPost`); a model error comes back as that error value.
     `hQset`: the provider's invariant `Q` is preserved by the model's `set`; `hmono`: the model's `MDataSlab.set` does
     not lower the allocation counter. -/
-theorem Ob_MapSlab_Set_heap_of_tails' (cfg : MCfg) (k : MKey) (v : Elem) (P : DG r → Prop)
+theorem Ob_MapSlab_Set_heap_of_tails' (cfg : MCfg) (k : MKey) (v : Elem) (P : DG r → Prop) (L : MDataSlab r → Prop)
     (Q Qin : (d : Nat) → MTree r d → Prop) (hE : ElemsSpec cfg k v P eb)
     (hS : MSplitTail cfg.T rs Q) (hM : MMorTail cfg.T rs Q)
     (hQin : ∀ d (t : MTree r d), Qin d t → Q d t)
     (hQset : ∀ d (t t' : MTree r d) ks old c c', Qin d t → MTree.set cfg d t k v c = .ok (ks, old, t', c') → Q d t')
-    (hmono : ∀ (sl : MDataSlab r) c ks old sl' c', MDataSlab.set cfg sl k v c = .ok (ks, old, sl', c') → c.ctr ≤ c'.ctr)
+    (hmono : ∀ (sl : MDataSlab r) c ks old sl' c', L sl → MDataSlab.set cfg sl k v c = .ok (ks, old, sl', c') → c.ctr ≤ c'.ctr)
     (hT1 : maxThr cfg.T < 2^32) (hT2 : minThr cfg.T < 2^32) (hhk : k.dig 0 < 2^64) :
     ∀ (d depth : Nat) (t : MTree r d) (x x0 : Option DX) (s : MHSt r), d ≤ depth → MHolds s.heap d t x0 →
       x.isSome = mds_rootFlag d t → (md_ids d t).Nodup → (∀ id ∈ md_ids d t, id.addr = cfg.addr) →
-      mds_FreshFree cfg.addr s → mds_PathG cfg k v P Qin d t s.ctx →
+      mds_FreshFree cfg.addr s → mds_PathG cfg k v P L Qin d t s.ctx →
       match MTree.set cfg d t k v s.ctx with
       | .ok (ks, old, t', c') =>
         ∃ s', MapSlab_Set (envD cfg.T eb rs) (MapMetaDataSlab_Set (envD cfg.T eb rs) depth) (md_tree d t x) s () k
@@ -178,14 +179,14 @@ theorem Ob_MapSlab_Set_heap_of_tails' (cfg : MCfg) (k : MKey) (v : Elem) (P : DG
   induction d with
   | zero =>
     intro depth t x x0 s _ hh hx hnd haddr ffs hp
-    have h := mds_set_data eb rs cfg k v P hE t x hx hp.1 s hp.2.1 hp.2.2 depth
+    have h := mds_set_data eb rs cfg k v P hE t x hx hp.1 s hp.2.1 hp.2.2.1 depth
     unfold mds_setRel at h
     rcases hq : MTree.set cfg 0 t k v s.ctx with e | ⟨ks, old, t', c'⟩
     · rw [hq] at h
       exact ⟨_, _, h⟩
     · rw [hq] at h
       obtain ⟨s', h1, h2, h3, hrel⟩ := h
-      exact ⟨s', h1, h2, h3, mds_Post_of_HeapRel hrel hnd haddr hh ffs (by rw [h2]; exact hmono t s.ctx ks old t' c' hq)⟩
+      exact ⟨s', h1, h2, h3, mds_Post_of_HeapRel hrel hnd haddr hh ffs (by rw [h2]; exact hmono t s.ctx ks old t' c' hp.2.2.2 hq)⟩
   | succ d ih =>
     intro depth t x x0 s hd hh _ hnd haddr ffs hp
     obtain ⟨hfk, hlen, hhdrs, hQ, child, hci, hroot, hpc, hsz⟩ := hp
@@ -283,19 +284,19 @@ theorem mds_topPromote_modelR (hR : MRootTailR T rs QR)
     path nodes), `Q` (what the child tails may assume), `QR` (handle-level, what the root tails may assume and
     re-establish).  `hQRset`: the handle after the tree-level `set` (new root, new count) satisfies `QR`. -/
 theorem Ob_OrderedMap_set_heap_of_tails' (Qin : (d : Nat) → MTree r d → Prop) (cfg : MCfg) (k : MKey) (v : Elem)
-    (P : DG r → Prop) (hE : ElemsSpec cfg k v P eb) (hS : MSplitTail cfg.T rs Q) (hM : MMorTail cfg.T rs Q)
+    (P : DG r → Prop) (L : MDataSlab r → Prop) (hE : ElemsSpec cfg k v P eb) (hS : MSplitTail cfg.T rs Q) (hM : MMorTail cfg.T rs Q)
     (hR : MRootTailR cfg.T rs QR)
     (hQin : ∀ d (t : MTree r d), Qin d t → Q d t)
     (hQset : ∀ d (t t' : MTree r d) ks old c c', Qin d t → MTree.set cfg d t k v c = .ok (ks, old, t', c') → Q d t')
     (hQRhdrs : ∀ d (xr : MMetaSlab (MTree r d)) ty cnt seed, QR ⟨d + 1, xr, ty, cnt, seed⟩ →
       xr.childHdrs = xr.children.map (MTree.hdr d))
-    (hmono : ∀ (sl : MDataSlab r) c ks old sl' c', MDataSlab.set cfg sl k v c = .ok (ks, old, sl', c') → c.ctr ≤ c'.ctr)
+    (hmono : ∀ (sl : MDataSlab r) c ks old sl' c', L sl → MDataSlab.set cfg sl k v c = .ok (ks, old, sl', c') → c.ctr ≤ c'.ctr)
     (hT1 : maxThr cfg.T < 2^32) (hT2 : minThr cfg.T < 2^32) (hhk : k.dig 0 < 2^64)
     (m : OMap r) (s : MHSt r) (x0 : Option DX) (depth : Nat) (hd : m.d ≤ depth)
     (hheld : MHolds s.heap m.d m.root x0) (hnd : (md_ids m.d m.root).Nodup)
     (haddr : ∀ id ∈ md_ids m.d m.root, id.addr = cfg.addr) (hff : mds_FreshFree cfg.addr s)
     (hroot : mds_rootFlag m.d m.root = true)
-    (hp : mds_PathG cfg k v P Qin m.d m.root s.ctx)
+    (hp : mds_PathG cfg k v P L Qin m.d m.root s.ctx)
     (hQRset : ∀ ks old root' c1, MTree.set cfg m.d m.root k v s.ctx = .ok (ks, old, root', c1) →
       QR ({ m with root := root', count := if old.isNone then m.count + 1 else m.count } : OMap r))
     (hszR : ∀ ks old root' c1, MTree.set cfg m.d m.root k v s.ctx = .ok (ks, old, root', c1) →
@@ -308,7 +309,7 @@ theorem Ob_OrderedMap_set_heap_of_tails' (Qin : (d : Nat) → MTree r d → Prop
         s'.ctx = c' ∧ s'.popped = s.popped ∧ mds_RootPreR QR cfg.addr s' m' x' ∧
         mds_Delta s.heap s'.heap (md_ids m.d m.root) (md_ids m'.d m'.root)
     | .error e => ∃ M', OrderedMap_set (envD cfg.T eb rs) depth (md_map m s) (.key k) (.val v) = some (none, some e, M') := by
-  have hT := Ob_MapSlab_Set_heap_of_tails' eb rs cfg k v P Q Qin hE hS hM hQin hQset hmono hT1 hT2 hhk m.d depth m.root
+  have hT := Ob_MapSlab_Set_heap_of_tails' eb rs cfg k v P L Q Qin hE hS hM hQin hQset hmono hT1 hT2 hhk m.d depth m.root
     (some (md_extra m)) x0 s hd hheld (by rw [hroot]; rfl) hnd haddr hff hp
   rw [mds_OMap_set_eq]
   rcases hq : MTree.set cfg m.d m.root k v s.ctx with e | ⟨ks, old, root', c1⟩
